@@ -69,6 +69,14 @@ struct Key
   // key for the "nothing is left after removal" oracles (not tied to a drop mechanism)
   std::string nothing(const std::string& plain) const { return collapsed ? base : plain; }
 };
+// The extents of a Db (getExtension*(useSel = true), CalcSimuTurningBands::_minmax) are taken over the ACTIVE samples
+// whatever their values: a sample whose variables are all undefined still stretches them.  Features fed by such an
+// extent get one key per operation when the dropped samples are of that kind (by=uval / by=mixed).
+static bool hasUndefValueSamples(const Samples& s) { return s.by == BY_UVAL || s.by == BY_MIXED; }
+static Key extentKey(const std::string& op, const std::string& feature)
+{
+  return Key {"C05:" + op + ":" + feature + ":extent-over-undefined-value-samples", true};
+}
 static Key mkKey(const std::string& op, const std::string& variant, const Samples& s, bool ball = false, const std::string& family = "")
 {
   if (ball) return Key {"C05:" + op + ":ball-search", true};
@@ -385,16 +393,20 @@ struct NeighSpec
   VectorDouble coeffs, angles;
   std::string desc = "unique";
 };
-static NeighSpec genNeigh(Rng& r, int ndim, bool forceUnique = false)
+static NeighSpec genNeigh(Rng& r, int ndim, bool forceUnique = false, bool ucoord = false)
 {
   NeighSpec ns;
   ns.kind = forceUnique ? 0 : r.irange(0, 2);
+  // (undefined coordinates: favour the two configurations known to end in a memory error - sectors without a
+  //  radius, cross-validation in unique neighbourhood - so that their keys are reached in every run; they stay
+  //  well below 1 % of the cases)
+  if (ucoord && !forceUnique) ns.kind = r.coin(0.5) ? 0 : 1;
   if (ns.kind == 2 && avoid("ball", AVOID_BALL)) ns.kind = 1;
   if (ns.kind == 0) return ns;
   ns.nmaxi  = r.irange(3, 10);
   ns.nmini  = r.irange(1, 3);
-  ns.radius = r.coin(0.7) ? r.uni(30, 120) : TEST;
-  if (ndim >= 2 && r.coin(0.3)) { ns.nsect = r.irange(2, 6); ns.nsmax = r.irange(1, 3); }
+  ns.radius = r.coin(ucoord ? 0.3 : 0.7) ? r.uni(30, 120) : TEST;
+  if (ndim >= 2 && r.coin(ucoord ? 0.7 : 0.3)) { ns.nsect = r.irange(2, 6); ns.nsmax = r.irange(1, 3); }
   ns.leaf = r.irange(2, 12);
   if (r.coin(0.5))
   {
@@ -439,10 +451,10 @@ static void opKriging(Rng& r, Ctx& c)
   }
   ModelSpec ms;
   auto model = genModel(r, s.ndim, s.nvar, drift, ms);
-  bool linear = !fext && r.coin(0.1) && !avoid("linear", AVOID_LINEAR) && s.by != BY_SELNA && s.by != BY_UCOORD; // (one exotic feature at a time)
+  bool linear = !fext && r.coin(hasUndefValueSamples(s) ? 0.3 : 0.07) && !avoid("linear", AVOID_LINEAR) && s.by != BY_SELNA && s.by != BY_UCOORD; // (one exotic feature at a time)
   if (linear) { drift = 0; model = genLinearModel(r, s.nvar, ms); }
   if (fext) { model->setDriftIRF(drift, 1); ms.desc += "+fext"; }
-  NeighSpec ns = genNeigh(r, s.ndim);
+  NeighSpec ns = genNeigh(r, s.ndim, false, s.by == BY_UCOORD);
   std::string nd = ns.desc;
   auto neigh = mkNeigh(ns, false), neighR = mkNeigh(ns, false);
   bool gridT  = r.coin(0.3);
@@ -478,7 +490,7 @@ static void opKriging(Rng& r, Ctx& c)
     doutR = mkTargetsReduced(t);
   }
   Key K = mkKey("kriging", neighOnly ? "test_neigh:" + nd : nd, s, ns.kind == 2);
-  if (linear && !K.collapsed && !neighOnly) K = Key {"C05:kriging:linear-model:field-extension", true};
+  if (linear && !K.collapsed && !neighOnly && hasUndefValueSamples(s)) K = extentKey("kriging", "linear-model");
   auto krige = [&](Db* din, Db* dout, ANeigh* ng) {
     if (neighOnly) return test_neigh(din, dout, model.get(), ng);
     return kriging(din, dout, model.get(), ng, EKrigOpt::POINT, true, flagStd, flagVarz);
@@ -530,11 +542,14 @@ static void opXvalid(Rng& r, Ctx& c)
   Samples s = genSamples(r, o);
   defineDefaultSpace(ESpaceType::RN, s.ndim);
   int drift = r.irange(-1, 1);
+  if (s.by == BY_UCOORD && r.coin(0.5)) drift = -1; // (see genNeigh: favours the known out-of-range access)
   ModelSpec ms;
   auto model = genModel(r, s.ndim, s.nvar, drift, ms);
-  bool linear = r.coin(0.1) && !avoid("linear", AVOID_LINEAR) && s.by != BY_SELNA && s.by != BY_UCOORD; // (one exotic feature at a time)
+  // (intrinsic model only without undefined-value samples: every sample of the Db is also a target SITE of the
+  //  cross-validation, so its location legitimately belongs to the extent of the output Db)
+  bool linear = r.coin(0.1) && !avoid("linear", AVOID_LINEAR) && (s.by == BY_NONE || s.by == BY_SEL);
   if (linear) { drift = 0; model = genLinearModel(r, s.nvar, ms); }
-  NeighSpec ns = genNeigh(r, s.ndim);
+  NeighSpec ns = genNeigh(r, s.ndim, false, s.by == BY_UCOORD);
   std::string nd = ns.desc;
   auto neigh = mkNeigh(ns, true), neighR = mkNeigh(ns, true);
   bool kfold = false;
@@ -547,7 +562,6 @@ static void opXvalid(Rng& r, Ctx& c)
   auto dM = mkMasked(r, s);
   auto dR = mkReduced(s);
   Key K = mkKey("xvalid", nd, s, ns.kind == 2);
-  if (linear && !K.collapsed) K = Key {"C05:xvalid:linear-model:field-extension", true};
   int ncM = dM->getColumnNumber(), ncR = dR->getColumnNumber();
   std::vector<double> snap = snapshot(dM.get(), ncM);
   TRACE(c, "xvalid %s n=%d kept=%d -> masked run", s.sigtag().c_str(), s.n, s.nkept());
@@ -1021,14 +1035,14 @@ static void opSimtub(Rng& r, Ctx& c)
         for (int d = 0; d < s.ndim; d++) d2 += (s.x[d][i] - nodeCoord(j, d)) * (s.x[d][i] - nodeCoord(j, d));
         if (d2 < 1e-4) s.x[0][i] += 0.05;
       }
-    nearNode = r.coin(0.15) && s.nkept() >= 3 && !g.active.empty() && s.by != BY_SELNA && s.by != BY_UCOORD;
+    nearNode = r.coin(hasUndefValueSamples(s) ? 0.5 : 0.1) && s.nkept() >= 3 && !g.active.empty() && s.by != BY_SELNA && s.by != BY_UCOORD;
     if (nearNode)
     {
       int i = s.kept[r.irange(0, s.nkept() - 1)], j = g.active[r.irange(0, (int)g.active.size() - 1)];
       for (int d = 0; d < s.ndim; d++) s.x[d][i] = nodeCoord(j, d) + (d == 0 ? 2e-5 : 0.);
     }
   }
-  bool linear = r.coin(0.2) && !avoid("linear", AVOID_LINEAR) && s.by != BY_SELNA && !nearNode; // (one exotic feature at a time)
+  bool linear = r.coin(hasUndefValueSamples(s) ? 0.35 : 0.15) && !avoid("linear", AVOID_LINEAR) && s.by != BY_SELNA && !nearNode; // (one exotic feature at a time)
   // (a field reduced to ONE point has a zero extension: the intrinsic generator then never returns, masks or not)
   if (linear && (cond ? s.nkept() + (int)g.active.size() : (int)t.active.size()) < 3) linear = false;
   if (linear)
@@ -1076,8 +1090,8 @@ static void opSimtub(Rng& r, Ctx& c)
     for (int j = 0; j < t.m; j++) if (t.masked[j]) off.push_back(j);
   }
   Key K = cond ? mkKey(kind, "", s, ns.kind == 2) : Key {"C05:" + kind + ":by=none", false};
-  if (linear && !K.collapsed) K = Key {"C05:" + kind + ":linear-model:field-extension", true};
-  if (nearNode && !K.collapsed) K = Key {"C05:simtub-cond:datum-near-grid-node:snap-tolerance", true};
+  if (cond && linear && !K.collapsed && hasUndefValueSamples(s)) K = extentKey(kind, "linear-model");
+  if (nearNode && !K.collapsed && hasUndefValueSamples(s)) K = extentKey(kind, "datum-near-grid-node");
   int ncM = doutM->getColumnNumber(), ncR = doutR->getColumnNumber(), ncDin = dinM->getColumnNumber();
   std::vector<double> snapOut = snapshot(doutM.get(), ncM), snapIn = snapshot(dinM.get(), ncDin);
   auto neigh = mkNeigh(ns, false), neighR = mkNeigh(ns, false);
@@ -1540,15 +1554,15 @@ static void opVmapCloud(Rng& r, Ctx& c)
   Samples s = genSamples(r, o);
   if (cloud) { s.nvar = 1; s.z.resize(1); s.hetero = false; }
   defineDefaultSpace(ESpaceType::RN, s.ndim);
-  bool dflt = r.coin(0.5); // let the function derive mesh / extents from the Db itself
+  bool dflt = r.coin(hasUndefValueSamples(s) ? 0.8 : 0.5); // let the function derive mesh / extents from the Db itself
   c.setSig(fmt("%s:ndim=%d:nvar=%d:%s:default-extent=%d", cloud ? "vcloud" : "vmap", s.ndim, s.nvar, s.sigtag().c_str(), (int)dflt));
   c.puts("op", cloud ? "db_vcloud" : "db_vmap");
   c.put("n_kept", fmt("[%d,%d]", s.n, s.nkept()));
   auto dM = mkMasked(r, s);
   auto dR = mkReduced(s);
   // default mesh / extents are derived from the Db by the function itself: one key per function for that feature
-  Key K = dflt ? Key {std::string("C05:") + (cloud ? "db_vcloud" : "db_vmap") + ":default-extent", true}
-               : mkKey(cloud ? "db_vcloud" : "db_vmap", "given-extent", s);
+  Key K = mkKey(cloud ? "db_vcloud" : "db_vmap", dflt ? "default-extent" : "given-extent", s);
+  if (dflt && !K.collapsed && hasUndefValueSamples(s)) K = extentKey(cloud ? "db_vcloud" : "db_vmap", "default-extent");
   int ncM = dM->getColumnNumber();
   std::vector<double> snap = snapshot(dM.get(), ncM);
   TRACE(c, "%s %s n=%d kept=%d dflt=%d", cloud ? "vcloud" : "vmap", s.sigtag().c_str(), s.n, s.nkept(), (int)dflt);
@@ -1592,7 +1606,7 @@ static const OpDef OPS[] = {
   {"anam", opAnam, 1},
   {"pca", opPCA, 1},
   {"polygon", opPolygon, 1},
-  {"vmap-vcloud", opVmapCloud, 1},
+  {"vmap-vcloud", opVmapCloud, 2},
 };
 
 static void run_case(Rng& r, Ctx& c)
